@@ -1,5 +1,51 @@
 From RsdnsModel Require Import Base Cursor Names Labels Header Tracker RData Reader.
-From RsdnsModel.Proofs Require Import Latch.
+From RsdnsModel.Spec Require Import LinearPass.
+From RsdnsModel.Proofs Require Import Latch TrackerRefine.
 From RsdnsModel.Properties Require Import C09.
-Check C09_stays_exhausted_partial. Check C09_error_latches_partial.
-Print Assumptions C09_stays_exhausted_partial. Print Assumptions C09_error_latches_partial.
+Open Scope N_scope.
+Check (C09_stays_exhausted_partial : forall msg r, r_done r = true ->
+  (forall single as_ref, rd_question msg single as_ref r = (r, Err ReaderDone)) /\
+  rd_skip_questions msg r = (r, Err ReaderDone) /\
+  rd_marker msg r = (r, Err ReaderDone) /\ rd_header_ref msg r = (r, Err ReaderDone) /\
+  (forall nk, rd_header_n msg nk r = (r, Err ReaderDone)) /\
+  (forall s, rd_seek msg s r = (r, Err ReaderDone)) /\
+  rd_questions_count r = Ok (ONum 0) /\ rd_records_count r = Ok (ONum 0) /\
+  (forall s, rd_records_count_in s r = Ok (ONum 0))).
+Check (C09_error_latches_partial : forall msg r, r_done r = false ->
+  (is_ok (snd (rd_marker msg r)) = false -> r_done (fst (rd_marker msg r)) = true) /\
+  (is_ok (snd (rd_header_ref msg r)) = false -> r_done (fst (rd_header_ref msg r)) = true) /\
+  (forall nk, is_ok (snd (rd_header_n msg nk r)) = false -> r_done (fst (rd_header_n msg nk r)) = true) /\
+  (is_ok (snd (rd_skip_questions msg r)) = false -> r_done (fst (rd_skip_questions msg r)) = true)).
+Check (C09_tracker_refines : forall nq an ns ar P,
+  nq <= 65535 -> an <= 65535 -> ns <= 65535 -> ar <= 65535 -> (forall k, 1 <= P k <= 65535) ->
+  forall ops tr idx hw idx' hw',
+  Inv nq an ns ar P tr idx hw -> allowed nq an ns ar ops idx hw = Some (idx', hw') ->
+  exists tr', run_t nq an ns ar P ops tr idx hw = Some (tr', idx', hw') /\ Inv nq an ns ar P tr' idx' hw').
+Check (C09_tracker_init : forall nq an ns ar P,
+  nq <= 65535 -> an <= 65535 -> ns <= 65535 -> ar <= 65535 -> (forall k, 1 <= P k <= 65535) ->
+  forall h, h_qd h = nq -> h_an h = an -> h_ns h = ns -> h_ar h = ar -> Inv nq an ns ar P (tr_set tr_default h) 0 0).
+Check (C09_counts : forall nq an ns ar P,
+  nq <= 65535 -> an <= 65535 -> ns <= 65535 -> ar <= 65535 -> (forall k, 1 <= P k <= 65535) ->
+  forall tr idx hw, Inv nq an ns ar P tr idx hw ->
+  questions_left tr = Ok (nq - N.min idx nq) /\
+  records_left_in tr 0 = Ok (an - rd nq an ns ar idx 0) /\ records_left_in tr 1 = Ok (ns - rd nq an ns ar idx 1) /\
+  records_left_in tr 2 = Ok (ar - rd nq an ns ar idx 2) /\
+  records_left tr = Ok ((an - rd nq an ns ar idx 0) + (ns - rd nq an ns ar idx 1) + (ar - rd nq an ns ar idx 2))).
+Check (C09_seek : forall nq an ns ar P,
+  nq <= 65535 -> an <= 65535 -> ns <= 65535 -> ar <= 65535 -> (forall k, 1 <= P k <= 65535) ->
+  forall tr idx hw s, Inv nq an ns ar P tr idx hw -> s < 3 ->
+  (known (lin nq an ns ar) (mkA idx hw false None) s = true ->
+     section_offset tr s = Some (P (nq + sec_start (lin nq an ns ar) s)) /\
+     Inv nq an ns ar P (tr_seek tr s) (nq + sec_start (lin nq an ns ar) s) hw) /\
+  (known (lin nq an ns ar) (mkA idx hw false None) s = false -> section_offset tr s = None)).
+Check (C09_record_section : forall nq an ns ar P,
+  nq <= 65535 -> an <= 65535 -> ns <= 65535 -> ar <= 65535 -> (forall k, 1 <= P k <= 65535) ->
+  forall tr idx hw, Inv nq an ns ar P tr idx hw -> nq <= idx -> idx < nq + nrec (lin nq an ns ar) ->
+  let s := section_of (lin nq an ns ar) (idx - nq) in
+  exists tr1, next_section tr (P idx) = (tr1, Some s) /\
+    exists tr', section_read tr1 s (P (idx + 1)) = Ok tr' /\ Inv nq an ns ar P tr' (idx + 1) (N.max hw (idx + 1))).
+Check (C09_tracker_example : allowed 1 2 0 1 [TQuestion; TRecord; TRecord; TSeek 0; TRecord; TSeek 1; TRecord] 0 0 = Some (4, 4) /\
+  allowed 1 2 0 1 [TQuestion; TSeek 1] 0 0 = None /\
+  exists tr, run_t 1 2 0 1 (fun k => 12 + 20 * k) [TQuestion; TRecord; TRecord; TSeek 0; TRecord; TSeek 1; TRecord]
+                   (tr_set tr_default (mkHeader 7 0 1 2 0 1)) 0 0 = Some (tr, 4, 4)).
+Print Assumptions C09_stays_exhausted_partial. Print Assumptions C09_error_latches_partial. Print Assumptions C09_tracker_refines. Print Assumptions C09_tracker_init. Print Assumptions C09_counts. Print Assumptions C09_seek. Print Assumptions C09_record_section. Print Assumptions C09_tracker_example.
